@@ -99,6 +99,15 @@ def c15(pid, tier, replay):
     res.notes["once_init_model"] = dict(distinct=r["distinct"], threads=3)
     if r["error"]:
         res.violation("OnceInit.tla: " + r["error"][:300], dict(kind="mc"))
+    # (1b) the same two invariants for ANY set of threads: an inductive invariant, proved by TLAPS
+    proof = core.run_tlapm("OnceInitProof", ["OnceInit"], res.wd, threads=6)
+    p_out = proof.pop("out")
+    res.notes["tlaps_theorem"] = dict(proof, what="THEOREM Safety: Spec => [](OneInit /\\ NoUseBeforePublish) for any set of threads (inductive invariant IndInv)")
+    # (a proof is about the specification alone - the code is bound to it by the traces - so a
+    # proof that does not go through, e.g. a prover timing out on a loaded machine, is no verdict)
+    if proof["outcome"] != "proved":
+        res.cov["inconclusive"] += 1
+        res.notes["tlaps_output"] = p_out[-600:]
     # (2) K independent processes (fresh hash seeds) must observe the same grammar, Pager
     #     decisions, graph and table for every instance, all yacc kinds incl. Eco implicit tokens
     K = 16 if thorough else 5
